@@ -310,6 +310,10 @@ class Run:
             ops = scn["ops"][k]
             if cursors[k] >= len(ops):
                 return False
+            if ops[cursors[k]]["op"] != "reconnect" and any(c.tag == k for c in self.net.conns) and conn_of(k).closing:
+                # the library has closed the connection itself (after a timeout of its own, or because its caller abandoned an
+                # exchange and it will not risk the late answer): the caller connects again before it goes on
+                ops.insert(cursors[k], {"op": "reconnect", "after_hangup": True})
             op = ops[cursors[k]]
             cursors[k] += 1
             if op.get("tick"):
